@@ -1042,7 +1042,7 @@ CHECKS["C11"] = check_C11
 def _tree_shape(t):
     if t["k"] == "nil":
         return "."
-    return "(" + _tree_shape(t["ref"]) + "|" + _tree_shape(t["alt"]) + ")"
+    return "(" + _tree_shape(t["ref"]) + "|" + "".join(_tree_shape(x) for x in t["alts"]) + ")"
 
 
 def check_C12(tier, seed):
@@ -1057,6 +1057,10 @@ def check_C12(tier, seed):
     qc = QueryCheck(run)
     rng = qc.rng
     shapes = set()
+    # Layer B: the operator structure rule.py wires while blocks are written, evaluated by the conclusion selectors,
+    # equals the ripple-down interpreter for every tree and every valuation of the branch conditions
+    run.mc("RuleMech", "wiring", constants=dict(MaxNodes=5 if quick else 7, RefinementRelinks=True, AlternativeClimbsAll=True),
+           invariants=("WiredEqualsFire", "ParentsConsistent"), view="View")
     for nv in (1, 2):
         trees = run.export("GenRule", f"trees{nv}", "TREE", constants=dict(MaxNodes=3 if quick else 4, NConds=3 if quick else 4, NV=nv),
                            invariants=("Export", "SizeOK"))
